@@ -41,6 +41,7 @@ pub fn enumerate(tier: Tier) -> Vec<RTy> {
     // path-qualified spellings of project types at every constructor position (the translator
     // identifies a type by its last path segment)
     all.extend(gen::enumerate_spines(&[RTy::named("models::Item"), RTy::named("crate::dto::Kind")], &[leaf("i32")], 2));
+    all.extend(gen::enumerate_spines(&[RTy::named("models::Item")], &[leaf("i32")], 3));
     // a parameter or field of reference type other than &str is not in the documented set at
     // top level for owned sites, but is harmless to the translator: keep everything.
     let mut seen = HashSet::new();
@@ -170,8 +171,9 @@ pub fn run(tier: Tier) -> CheckResult {
                 }
                 Verdict::NotEvaluable(m) => {
                     not_evaluable += 1;
-                    // a case that cannot be evaluated is treated as failing for the derived rule
-                    failing.entry((s, z)).or_default().insert(t.clone());
+                    // (a case that cannot be evaluated - its carrier file does not parse, C01's
+                    // business - does not make the cases built on it derived: a wrong but
+                    // well-formed translation of the enclosing type is still reported here)
                     let k = m.split(':').next().unwrap_or("").to_string();
                     *noneval_reasons.entry(k).or_default() += 1;
                 }
